@@ -583,7 +583,9 @@ class StrategyBase(Node):
 
             paper = deepcopy(self)
             paper.parent = paper
-            paper.root = paper
+            # the copy is the root of its own tree: tell its descendants too
+            # (they would otherwise keep pointing at a copy of the old root)
+            paper._set_root(paper)
             paper._paper_trade = False
             paper.setup(self._original_data, **kwargs)
             paper.adjust(self._paper_amount)
